@@ -78,9 +78,10 @@ func TestProp(t *testing.T) {
 		}
 	}
 
-	if p.Extra != nil {
+	if p.Extra != nil && os.Getenv("VERIF_SKIP_CORPUS") == "" {
 		v, c := p.Extra(st)
 		if v != "" {
+			st.Evaluations++
 			st.Violations++
 			rn.writeFailure(c, v)
 			t.Fatalf("VIOLATION-TEXT: %s", v)
